@@ -131,6 +131,10 @@ def generate(seed, tier):
             m = et.image.read_at(0, 4)
             for b in range(32):
                 add("vmdk", {"extent": ext}, f"{kind}_magic_bit{b}", [["e", 0, flip(m, b).hex()]])
+            if kind == "sesparse":          # the SE-sparse magic is 64 bits wide: the upper half is validated too
+                hi = et.image.read_at(4, 4)
+                for b in range(32):
+                    add("vmdk", {"extent": ext}, f"sesparse_magic_hi_bit{b}", [["e", 4, flip(hi, b).hex()]])
             if kind == "kdmv_footer":
                 foff = et.image.size - 1024
                 fm = et.image.read_at(foff, 4)
@@ -171,6 +175,8 @@ def generate(seed, tier):
                      ["missing_vmware.keyInfo", "missing_vmware.cipherName", "missing_vmware.keyHash"] +
                      ["keystore_mode_TPM", "keystore_mode_missing", "keystore_mode_none"]):
             add("envelope", re_, gate, [])
+            if not gate.startswith(("magic_bit", "keystore_")) or gate in ("magic_bit0", "magic_bit77"):
+                add("envelope", re_, gate, [], {"verify": False})       # the gates do not depend on the verify option
         # ---------------- vmx key safe
         import gen_vmx
         vmx_gates = ["identifier", "locator_rawkey", "locator_ldap", "locator_script", "cipher_AES-512", "cipher_DES", "mac_HMAC-MD5", "mac_HMAC-SHA-512",
@@ -389,7 +395,7 @@ def impl_run(case, built):
         from dissect.hypervisor.util.envelope import Envelope, KeyStore
         if gate.startswith("keystore_"):
             return _try(lambda: (KeyStore.from_text(built.ks_text), "accepted")[1])
-        return _try(lambda: (Envelope(built.files["a"].open()), "accepted")[1])
+        return _try(lambda: (Envelope(built.files["a"].open(), verify=case.get("verify", True)), "accepted")[1])
     if fam == "vmx":
         from dissect.hypervisor.descriptor.vmx import VMX
 
